@@ -75,3 +75,11 @@ def reduce_line(line):
 def shape_key(case, results):
     t = case[0].split()
     return "nms-n%s" % t[1]
+
+LEVEL_TEXT = ("Lean 4 theorems, for every coverage predicate, score threshold and input list, about a model of nms() that mirrors the code "
+              "(filter, enumerate, stable descending sort, excluded-set double loop): result is a sub-sequence of the rank-sorted filtered input, top kept, "
+              "pairwise independent, exact keep/drop rule and maximality, idempotent. The model is tied to src/utils/nms.rs by a differential run on generated box sets; "
+              "the executable statement of the theorems is also evaluated on the implementation's own output.")
+LEVEL_NOTE = ("Trusted: Lean kernel; model<->code tie is sampled (seeded differential run), not proved; the geometric coverage predicate is taken from the implementation "
+              "(C08 covers it); floats compared as exact rationals, NaN/inf excluded.")
+TECHNIQUE = "Lean 4 proof (loop-to-walk refinement + induction) with differential correspondence check"
